@@ -297,6 +297,28 @@ func (g *scenGen) genUnk() *Item {
 				}
 			}
 		}
+		// ... or unknown here and declared by a command below (the later occurrence behind the command name is a known option)
+		var below func(n *Node)
+		below = func(n *Node) {
+			names := make([]string, 0, len(n.Children))
+			for name := range n.Children {
+				names = append(names, name)
+			}
+			sortStrings(names)
+			for _, name := range names {
+				c := n.Children[name]
+				if c.IsHelp {
+					continue
+				}
+				for _, k := range c.SortedKeys() {
+					if k != "-" && RuneCount(k) > 1 && g.unkOK(k) {
+						cands = append(cands, k)
+					}
+				}
+				below(c)
+			}
+		}
+		below(g.node)
 		if len(cands) > 0 {
 			k := g.r.Pick(cands)
 			tok := "--" + k
